@@ -1212,7 +1212,9 @@ struct Exec {
         }
         std::string base = base_of(word);
         const char *why = nullptr;
-        if (word.empty())
+        if (s.in_utt && op.getb("update", true) && s.d->search)
+            why = "utterance_in_progress"; // the search cannot be rebuilt under a running utterance: refused as a whole
+        else if (word.empty())
             why = "empty_word";
         else if (np.empty())
             why = "empty_pronunciation";
@@ -1790,7 +1792,7 @@ struct Exec {
                     end_utt(s, Json::object(), opi);
                 load_grammar(s, op["g"], opi);
             } else if (o == "add_word") {
-                if (s.in_utt)
+                if (s.in_utt && !op.getb("in_utt"))
                     end_utt(s, Json::object(), opi);
                 if (profile == "C16")
                     do_add_word(s, op, opi);
@@ -2827,6 +2829,32 @@ struct DecWorld : World {
                     go.set("g", gg);
                     g.push(go, 0);
                     g.utterance(0, t, false, false, r.chance(0.5), false, 16000, 0.2, false, false);
+                    if (r.chance(0.3)) {
+                        // an addition INSIDE the utterance (before its end): with update it must be refused as a whole --
+                        // dictionary untouched, retry after the end succeeds --, without update it is an ordinary addition
+                        Json a2 = Json::object();
+                        a2.set("op", "add_word");
+                        std::string w = r.pick(fresh);
+                        a2.set("word", w);
+                        a2.set("phones", pron((int)r.range(1, 5)));
+                        a2.set("update", r.chance(0.75));
+                        a2.set("in_utt", true);
+                        a2.set("d", 0);
+                        size_t at = g.ops.a.size();
+                        while (at > 0 && g.ops.a[at - 1].gets("op") != "end")
+                            --at;
+                        if (at > 0) {
+                            g.ops.a.insert(g.ops.a.begin() + (long)(at - 1), a2);
+                            if (!a2.getb("update"))
+                                added.push_back(w);
+                            else if (r.chance(0.6)) { // the retry, after the end
+                                Json a3 = a2;
+                                a3.erase("in_utt");
+                                g.ops.a.push_back(a3);
+                                added.push_back(w);
+                            }
+                        }
+                    }
                     break;
                 }
                 default: { // a generated grammar over old and new words
